@@ -16,6 +16,7 @@ import (
 
 	"github.com/apernet/hysteria/core/v2/client"
 	coreErrs "github.com/apernet/hysteria/core/v2/errors"
+	"github.com/apernet/hysteria/core/v2/internal/protocol"
 	"verif.local/engine/explore"
 	"verif.local/engine/vquic"
 	"verif.local/engine/vsched"
@@ -52,9 +53,6 @@ func c06Run(e *vsched.Exec, c c06Cfg) {
 	}
 	r.TargetBuf = 8
 	nt := vquic.GetNet(e)
-	if c.Window > 0 {
-		nt.DefaultStreamWindow = c.Window
-	}
 	f := &c06Factory{}
 	cl, _, err := client.NewClient(&client.Config{ConnFactory: f, ServerAddr: r.pc.LocalAddr(), Auth: "good", FastOpen: c.FastOpen})
 	if err != nil {
@@ -66,14 +64,18 @@ func c06Run(e *vsched.Exec, c c06Cfg) {
 	var appGot, tgtGot bytes.Buffer
 	var appWritten, tgtWritten int
 	var appReadErr, tgtReadErr, tcpErr, appWriteErr error
+	if c.Window > 0 {
+		nt.Conns[0].StreamWindow = c.Window
+		nt.Conns[0].Peer().StreamWindow = c.Window
+	}
 	conn, err := cl.TCP(c06Addr)
 	tcpErr = err
 	var wg vsync.WaitGroup
 	if err == nil {
-		if c.Chunks {
-			for _, s := range nt.Conns[0].Streams() {
-				s.ChunkChoice = true
-				s.Other().ChunkChoice = true
+		for _, s := range nt.Conns[0].Streams() {
+			s.EOFWithData, s.Other().EOFWithData = true, true
+			if c.Chunks {
+				s.ChunkChoice, s.Other().ChunkChoice = true, true
 			}
 		}
 		appReadDone := false
@@ -219,30 +221,38 @@ func c06Run(e *vsched.Exec, c c06Cfg) {
 				maxRx = ev.M
 			}
 		}
-		if uint64(tgtGot.Len()) > okTx || okTx-uint64(tgtGot.Len()) > maxTx {
-			e.Fail("(iv) tx accounting: logger approved %d bytes client->target, target received %d (largest chunk %d)", okTx, tgtGot.Len(), maxTx)
+		// bytes actually forwarded: accepted by the target socket / put on the client's stream
+		var fwdTx, fwdRx uint64
+		if re := r.RelayEnds[c06Addr]; re != nil {
+			fwdTx = uint64(len(re.Written))
 		}
-		// rx: bytes written towards the client; what the application read may lag by undelivered data only
-		// when the relay was torn down; compare with what the server put on the stream
-		var onStream int64
 		for _, s := range sconn.Streams() {
-			onStream += s.WrittenTotal()
+			all := s.WrittenBytes()
+			rd := bytes.NewReader(all)
+			if _, _, err := protocol.ReadTCPResponse(rd); err == nil {
+				fwdRx += uint64(rd.Len())
+			}
 		}
-		if uint64(appGot.Len()) > okRx {
-			e.Fail("(iv) rx accounting: application received %d bytes but the logger approved only %d", appGot.Len(), okRx)
+		if fwdTx > okTx || okTx-fwdTx > maxTx {
+			e.Fail("(iv) tx accounting: logger approved %d bytes client->target, %d were forwarded to the target (largest chunk %d)", okTx, fwdTx, maxTx)
 		}
-		if c.Whole == "c2t" && !vetoed && okTx != uint64(tgtGot.Len()) {
-			e.Fail("(iv) tx accounting not exact for the direction that ended the relay by EOF: approved %d, delivered %d", okTx, tgtGot.Len())
+		if fwdRx > okRx || okRx-fwdRx > maxRx {
+			e.Fail("(iv) rx accounting: logger approved %d bytes target->client, %d were forwarded to the client (largest chunk %d)", okRx, fwdRx, maxRx)
 		}
-		if c.Whole == "t2c" && !vetoed && okRx != uint64(appGot.Len()) {
-			e.Fail("(iv) rx accounting not exact for the direction that ended the relay by EOF: approved %d, delivered %d", okRx, appGot.Len())
+		if uint64(appGot.Len()) > okRx || uint64(tgtGot.Len()) > okTx {
+			e.Fail("(iv) an endpoint received more bytes than the logger approved (app %d/%d, target %d/%d)", appGot.Len(), okRx, tgtGot.Len(), okTx)
+		}
+		if c.Whole == "c2t" && !vetoed && okTx != fwdTx {
+			e.Fail("(iv) tx accounting not exact for the direction that ended the relay by EOF: approved %d, forwarded %d", okTx, fwdTx)
+		}
+		if c.Whole == "t2c" && !vetoed && okRx != fwdRx {
+			e.Fail("(iv) rx accounting not exact for the direction that ended the relay by EOF: approved %d, forwarded %d", okRx, fwdRx)
 		}
 		if vetoed {
 			if sconn.CloseCode != closeErrCodeTrafficLimitReached || !sconn.IsClosed() {
 				e.Fail("(iv) logger veto did not close the client connection with the traffic-limit code (closed=%v code=%#x)", sconn.IsClosed(), uint64(sconn.CloseCode))
 			}
 		}
-		_ = onStream
 	}
 	e.Logf("%s app<-%q tgt<-%q tcpErr=%v appReadErr=%v tgtReadErr=%v wErr=%v %s", c.Name, appGot.String(), tgtGot.String(), tcpErr, appReadErr, tgtReadErr, appWriteErr, r.eventsString())
 	_ = cl.Close()
@@ -305,8 +315,17 @@ func c06Scenarios(thorough bool) []*explore.Scenario {
 	var scs []*explore.Scenario
 	for _, c := range cfgs {
 		c := c
-		q := explore.Bounds{P: 2, E: 1}
-		t := explore.Bounds{P: 3, E: 2}
+		// sized with explore.Probe: ~270 alternatives per default schedule (window scenarios ~1200)
+		q := explore.Bounds{P: 1, E: 1}
+		t := explore.Bounds{P: 2, E: 1}
+		core := !c.FastOpen && c.Logger && (strings.HasPrefix(c.Name, "c2t/") || strings.HasPrefix(c.Name, "t2c/") || strings.HasPrefix(c.Name, "race-close/") || strings.HasPrefix(c.Name, "veto2/"))
+		if core {
+			q = explore.Bounds{P: 2, E: 1}
+			t = explore.Bounds{P: 3, E: 1, MaxExec: 3000000}
+		}
+		if strings.Contains(c.Name, "window") {
+			q, t = explore.Bounds{P: 1, E: 1}, explore.Bounds{P: 2, E: 1, MaxExec: 2000000}
+		}
 		if strings.Contains(c.Name, "40k") {
 			q, t = explore.Bounds{P: 1}, explore.Bounds{P: 1, E: 1}
 		}
@@ -326,3 +345,11 @@ func TestVerifC06Probe(t *testing.T) {
 }
 
 var _ = io.EOF
+
+func TestVerifC06Det(t *testing.T) {
+	for _, sc := range c06Scenarios(false) {
+		if strings.Contains(sc.Name, "window") {
+			fmt.Println(sc.Name, explore.Determinism(sc))
+		}
+	}
+}
